@@ -65,7 +65,7 @@ def BitFlipNoise(
         qubit_indices: Sequence of target qubit indices.
         target_gates: Sequence of target gate names.
     """
-
+    _check_valid_probability(error_prob, "error_prob")
     return GateNoiseInstruction(
         name="BitFlipNoise",
         qubit_count=1,
@@ -87,6 +87,7 @@ def PhaseFlipNoise(
         qubit_indices: Sequence of target qubit indices.
         target_gates: Sequence of target gate names.
     """
+    _check_valid_probability(error_prob, "error_prob")
     return GateNoiseInstruction(
         name="PhaseFlipNoise",
         qubit_count=1,
@@ -108,6 +109,7 @@ def BitPhaseFlipNoise(
         qubit_indices: Sequence of target qubit indices.
         target_gates: Sequence of target gate names.
     """
+    _check_valid_probability(error_prob, "error_prob")
     return GateNoiseInstruction(
         name="BitPhaseFlipNoise",
         qubit_count=1,
@@ -129,6 +131,7 @@ def DepolarizingNoise(
         qubit_indices: Sequence of target qubit indices.
         target_gates: Sequence of target gate names.
     """
+    _check_valid_probability(error_prob, "error_prob")
     return GateNoiseInstruction(
         name="DepolarizingNoise",
         qubit_count=1,
